@@ -759,6 +759,9 @@ class map_async(Stream):
         self.args = args
         self.stop_on_exception = stop_on_exception
         self.work_queue = asyncio.Queue(maxsize=parallelism)
+        self.parallelism = parallelism
+        self._evaluating = 0
+        self._insert_lock = asyncio.Lock()
 
         Stream.__init__(self, upstream, stream_name=stream_name, ensure_io_loop=True)
         self.work_task = None
@@ -827,10 +830,12 @@ class map_async(Stream):
 
     async def _insert_job(self, x, metadata):
         try:
-            await self._wait_for_work_slot()
-            coro = self.func(x, *self.args, **self.kwargs)
-            task = self._create_task(coro)
-            await self.work_queue.put((task, metadata))
+            # jobs take their slot in arrival order (the lock is FIFO)
+            async with self._insert_lock:
+                await self._wait_for_work_slot()
+                coro = self.func(x, *self.args, **self.kwargs)
+                task = self._create_task(coro)
+                await self.work_queue.put((task, metadata))
         except Exception as e:
             logger.exception(e)
             raise
